@@ -522,6 +522,22 @@ def c05_families(tier, seed, ids=None):
     for e in extreme:
         ex.append(mk(ids, [e, I(1)], {"extreme": True}))
     out.append(("extreme literals, shift counts, float specials, builtin misuse", ex, ("nocrash",)))
+    # strings whose character count and byte count differ: every index and slice bound from -1 to two past the byte count,
+    # the built-in iterators, length, concatenation, comparison (the language documents none of it beyond "no crash")
+    na = []
+    for txt in ["na\u00efve", "\u017elu\u0165", "\u65e5\u672c", "a\u00a3b", "\u00e9", "\U0001f600x", "abc\u00e9" * 10 + "z"]:
+        nb = len(txt.encode("utf-8"))
+        S = St(txt)
+        pts = sorted(set([-1, 0, 1, len(txt) - 1, len(txt), len(txt) + 1, nb - 1, nb, nb + 1, nb + 2]))
+        items = [assign("s", S), un("#", N("s"))]
+        items += [ix1(N("s"), I(i)) for i in pts]
+        items += [ix2(N("s"), I(i), I(j)) for i in (0, 1, len(txt)) for j in (len(txt), nb - 1, nb, nb + 1) if True]
+        items += [ix2(N("s"), I(1), un("#", N("s"))), ix2(N("s"), I(0), bin_("-", un("#", N("s")), I(1))),
+                  assign("acc", lst([])), fr(["c"], [call("elems", N("s"))], assign("acc", bin_("+", N("acc"), lst([N("c")])))), N("acc"),
+                  fr(["i"], [call("indices", N("s"))], ix1(N("s"), N("i"))), bin_("+", N("s"), N("s")), bin_("==", N("s"), ix2(N("s"), I(0), un("#", N("s")))),
+                  call("toa", lst([N("s")])), call("aton", N("s")), call("write", ix1(N("s"), I(1))), I(1)]
+        na.append(mk(ids, items, {"non-ascii": txt}))
+    out.append(("strings whose byte and character counts differ: index, slice, iterate", na, ("nocrash",)))
     # every statement form as last statement of a function / loop body / while ending in return
     forms = [I(1), assign("t", I(2)), iff(Bo(True), I(3)), iff(Bo(False), I(3)), ife(Bo(True), I(4), I(5)), wh(Bo(False), I(6)),
              wh(Bo(True), ret(I(7))), fr(["w"], [call("fromto", I(0), I(2))], N("w")), fr(["w"], [call("fromto", I(0), I(2))], ret(N("w"))),
@@ -548,6 +564,7 @@ def c05_nontrivial(v):
 
 c05_rule = ("adversarial enumeration: 17 binary operators x 9x9 operand type pairs (incl. nil and function) x operand sources (constant, global, local, captured, call result); "
             "unary/index/slice/array-element/condition/call-target/arity positions over all type pairs; extreme literals, shift counts, float specials, builtin misuse; "
+            "7 strings with multi-byte characters x every index / slice bound around the character and byte counts, elems, indices, length, concatenation; "
             "17 statement forms as tail of function / block / while body / for body / branches / top level; seeded random sessions with 25% type confusion. "
             "non-trivial = contains an operator, index or call; verdict = the real run ends in a value or a documented runtime error (no panic, no hang, no abort)")
 
@@ -925,6 +942,24 @@ def c17_families(tier, seed, ids=None):
     for b in bigs:
         rt.append(mk(ids, [call("toa", call("aton", call("toa", I(b)))), call("aton", St(str(b))), call("write", call("aton", St(str(b)))), bin_("==", call("aton", call("toa", I(b))), I(b)),
                            call("toa", lst([I(b), call("aton", St(str(b)))]))], {"bigint": b}))
+    # finite floats outside the exact sub-domain, carried by their bits: equality and the round trip are specified, the text is not.
+    # Literals of 15 to 17 significant digits, results of non-dyadic divisions re-entered as literals, neighbours of round numbers.
+    import struct
+    ofl = [0.1, 0.2, 0.30000000000000004, 1.0 / 3, 2.0 / 3, 1.1 * 1.1, 100.0 / 7, 0.1 + 0.7, 1234567.891, 3.141592653589793, 2.718281828459045, 1e15 + 0.3, 0.0001234,
+           4503599627370497.5, 9007199254740993.0 / 1024 + 0.1, 123456789.12345679, 0.1 * 3, 1.15, 2.675, 1e-4 * 1.0000000000000002]
+    r17 = random.Random(seed * 31 + 17)
+    for _ in range(12 if tier == "quick" else 400):
+        m = r17.getrandbits(52)
+        ex = r17.choice([1010, 1019, 1020, 1021, 1022, 1023, 1024, 1025, 1030, 1040, 1060, 1070])
+        ofl.append(struct.unpack(">d", struct.pack(">Q", (ex << 52) | m))[0])
+    ofl = [x for x in ofl if 1e-4 <= x < 1e16 and "e" not in repr(x) and FlOpq(x)["v"]["bits"] != ""]
+    ofl = [x for x in ofl if not (x == int(x) and x < 2 ** 30) and (x * 2 ** 40) != int(x * 2 ** 40) or x >= 2 ** 30]   # keep only floats the exact sub-domain does not hold
+    for i, x in enumerate(ofl):
+        X = FlOpq(x)
+        other = FlOpq(ofl[(i + 1) % len(ofl)])
+        rt.append(mk(ids, [assign("x", X), bin_("==", call("aton", call("toa", N("x"))), N("x")), call("aton", call("toa", N("x"))), call("toa", N("x")), bin_("==", N("x"), N("x")),
+                           bin_("!=", N("x"), other), bin_("==", lst([N("x"), I(1)]), lst([call("aton", call("toa", N("x"))), I(1)])), bin_("==", N("x"), I(3)), bin_("==", N("x"), Fl(3, 1)),
+                           assign("f", fn(["v"], call("aton", call("toa", N("v"))))), bin_("==", call("f", N("x")), N("x")), bin_("!=", call("f", other), N("x"))], {"opaque float": repr(x)}))
     for s in ["12", "-7", "1.5", "0.25", "-3.0", "zz", "", "12a", " 1", "007", "1000", "1.", ".5", "--1", "1e3", "0x10", "1_0", "+5", "Inf", "NaN"]:
         rt.append(mk(ids, [call("aton", St(s))], {"aton": s}))
     out.append(("aton(toa(n)) == n and aton forms", rt, ("value",)))
@@ -979,7 +1014,8 @@ def c17_nontrivial(v):
 
 
 c17_rule = ("toa/write over 23 values of every type (ints to 2^20, dyadic floats, signed zero, Inf, NaN, strings, nested arrays, functions); aton(toa(n)) == n for all ints in "
-            "-1000..1000, +-2^k+-1 for k < 30 and 48 dyadic floats, 20 aton spellings; fromto(a,b) for all -3 <= a,b <= 4 plus float/string/nil/array/bool arguments; "
+            "-1000..1000, +-2^k+-1 for k < 30 and 48 dyadic floats, and for finite floats outside the exact sub-domain carried by their float64 bits (20 fixed ones needing up to 17 "
+            "significant digits + random mantissas at 12 exponents: aton(toa(x)) == x directly, through a function and inside an array, x == x, x != y), 20 aton spellings; fromto(a,b) for all -3 <= a,b <= 4 plus float/string/nil/array/bool arguments; "
             "elems/indices over 12 arguments of every type; arity errors of every builtin; 0-4 read() calls (plain, interleaved with writes, with errors, inside a function, inside a loop) "
             "against 8 piped inputs of 0-5 lines. non-trivial = not a read vector with fewer than two reads")
 
@@ -1012,6 +1048,16 @@ def c19_families(tier, seed, ids=None):
         ss.append(mk(ids, base + [assign("f", fn(["q"], block([y(I(1)), y(I(2))]))), assign("g", fn(["q"], fr(["i"], [call("f", I(3))], iff(bin_("==", N("i"), I(2)), e)))), call("g", I(6))], {"err": ename, "where": "body-while-generator-suspended"}))
     if tier == "quick":
         ss = [s for i, s in enumerate(ss) if (i + seed) % 3 == 0]
+    # operand and parameter values whose rendering is cut at 20 characters: elements that render to nothing, to one character, long
+    # strings, nested arrays -- as operand of the failing instruction and as parameter of every active call
+    rows = [lst([St("")] * 7 + [St("x"), St("y")]), lst([St("")] * 12), lst([St("")] * 3 + [I(1)] * 9), lst([I(i) for i in range(12)]), lst([St("ab")] * 8),
+            St("abcdefghijklmnopqrstuvwxyz"), lst([lst([St("")] * 4)] * 4), lst([St(""), St("")]), lst([]), St("")]
+    for k, row in enumerate(rows):
+        ss.append(mk(ids, base + [assign("row", row), assign("pick", fn(["r", "i"], ix1(N("r"), N("i")))), call("pick", N("row"), I(99)),
+                                  assign("sum", fn(["r"], block([assign("t", I(0)), fr(["e"], [call("elems", N("r"))], assign("t", bin_("+", N("t"), call("aton", St("zz"))))), N("t")]))),
+                                  call("sum", bin_("+", N("row"), N("row")) if row["t"] == "list" else N("row")), bin_("+", N("row"), I(1)),
+                                  assign("g", fn(["r"], block([y(I(1)), ix1(N("r"), I(77))]))), assign("tot", fn(["r"], fr(["v"], [call("g", N("r"))], N("v")))), call("tot", N("row"))],
+                     {"err": "abbreviated", "where": "row %d" % k}))
     out = [("every error class x call depth / function-valued parameter / closure / reassigned parameter / loop body / generator / generator of generator", ss, ("value", "report"))]
     rs = gens.random_sessions(60 if tier == "quick" else 3000, seed, "c19", p_ill=0.2, first_id=800000)
     out.append(("random sessions with type confusion", rs, ("value", "report")))
@@ -1084,3 +1130,79 @@ def c18_nontrivial(v):
 
 
 c18_rule = ""
+
+
+# =============================================================== C01: a sample of every other property's families
+
+def cross_sample(tier, seed, first_id=3000000):
+    """C01 is the umbrella property (compiled execution = definitional semantics): besides its own expression x context
+    products and random sessions it judges, by value, a stable sample of the session families written for the other
+    semantic properties (generators, purity, scoping, cleanliness, immutability, built-ins, error sessions)."""
+    k = 25 if tier == "quick" else 400
+    out = []
+    nid = first_id
+    for pid, fam_fn in (("C02", c02_families), ("C03", c03_families), ("C04", c04_families), ("C09", c09_families), ("C10", c10_families),
+                        ("C17", c17_families), ("C19", c19_families)):
+        fams = fam_fn(tier, seed)
+        if isinstance(fams, tuple):      # c09_families also returns its iteration pairs
+            fams = fams[0]
+        pool = []
+        for fam in fams:
+            for x in fam[1]:
+                if x.get("pregrow") or x.get("stdin") or x.get("mode", "used") != "used" or (len(fam) > 3 and fam[3] != "used"):
+                    continue
+                pool.append((fam[0], x))
+        pool.sort(key=lambda fx: shash((pid, fx[0], fx[1]["id"], seed)))
+        for fname, x in pool[:k]:
+            y = dict(x)
+            y["id"] = nid
+            nid += 1
+            y["meta"] = {"from": pid, "family": fname, "meta": x.get("meta")}
+            y.pop("cmp", None)
+            out.append(y)
+    return ("sample of the families of C02 C03 C04 C09 C10 C17 C19, judged by value", out, ("value",))
+
+
+# =============================================================== C11: the operators as the compiler builds them
+
+C11_ATOMS = {"i0": I(0), "i3": I(3), "in": I(-2), "i1": I(1), "f15": Fl(3, 1), "f3": Fl(3, 0), "fz": Fl(0, 0), "nan": bin_("/", Fl(0, 0), Fl(0, 0)), "inf": bin_("/", Fl(1, 0), Fl(0, 0)),
+             "ninf": bin_("/", Fl(1, 0, True), Fl(0, 0)), "t": Bo(True), "f": Bo(False), "s": St("ab"), "se": St(""), "a": lst([I(1), Fl(3, 1)]), "an": lst([bin_("/", Fl(0, 0), Fl(0, 0))]),
+             "nil": N("nn"), "fn": N("id")}
+
+
+def c11_families(tier, seed, ids=None):
+    """every operator over special values, written the ways a program writes it: bare, negated, doubly negated, compared with its
+    own negation, as array element, with operands in globals -- so that an operator-level shortcut of the compiler
+    (folding a negation into the comparison, an increment form, a common operand) is held to the same algebra"""
+    ids = ids or Ids(5000000)
+    ss = []
+    names = list(C11_ATOMS)
+    for op in ALL_BINOPS:
+        for a in names:
+            for b in names:
+                if tier == "quick" and shash((op, a, b, seed)) % 8 != 0 and not ("nan" in (a, b) and op in ("<", ">", "<=", ">=", "==", "!=")):
+                    continue
+                ea, eb = C11_ATOMS[a], C11_ATOMS[b]
+                ga = [assign("ga", ea)] if a != "nil" else []
+                gb = [assign("gb", eb)] if b != "nil" else []
+                A = N("ga") if a != "nil" else N("nn")
+                B = N("gb") if b != "nil" else N("nn")
+                e, g = bin_(op, ea, eb), bin_(op, A, B)
+                items = [IDF] + ga + gb + [e, un("!", e), un("!", un("!", e)), g, un("!", g), assign("t", g), un("!", N("t")), lst([g, un("!", g)]),
+                                           assign("h", fn(["p", "q"], un("!", bin_(op, N("p"), N("q"))))), call("h", A, B) if a != "nil" and b != "nil" else I(0),
+                                           un("-", g), bin_("==", g, g), I(1)]
+                ss.append(mk(ids, items, {"op": op, "a": a, "b": b}))
+    us = []
+    for op in UNOPS:
+        for a in names:
+            ea = C11_ATOMS[a]
+            ga = [assign("ga", ea)] if a != "nil" else []
+            A = N("ga") if a != "nil" else N("nn")
+            us.append(mk(ids, [IDF] + ga + [un(op, ea), un(op, A), un(op, un(op, A)), un("!", un(op, A)), lst([un(op, A)]), I(1)], {"un": op, "a": a}))
+    return [("binary operators over special values as the compiler builds them: bare, negated, via globals, via parameters", ss, ("value",)),
+            ("unary operators, nested", us, ("value",))]
+
+
+c11_rule = ("17 binary operators x 18x18 operands (ints, exact floats, signed zero, NaN, +-Inf, booleans, strings, arrays (one holding NaN), nil, a function) each written bare, "
+            "negated, doubly negated, through globals, through an assigned temporary, as array elements, through parameters of a function, under unary minus and compared with "
+            "itself; 4 unary operators x 18 operands nested")
